@@ -19,7 +19,9 @@ RULE = ('family = one database description (1-3 merged parts, 0-3 datasets of 0-
         'examples, 0-2 aliases - possibly only in a later part -, extra top-level keys of '
         'scalar / list / dict type in the first part; with probability 0.2 an invalid one: '
         'duplicate dataset or alias name across parts, overlapping example ids inside an '
-        'alias), Dict- and Json-backed (files on a per-run temp dir), and 3 request '
+        'alias, between any two parts and in all four dataset / alias combinations), a '
+        'second database object with the same names but other contents in 40% of the '
+        'histories, Dict- and Json-backed (files on a per-run temp dir), and 3 request '
         'histories of 4-14 operations: get_dataset(name | alias | list), repeat, hold / '
         'drop the result, gc.collect(), mutate a returned example, pickle round trip of a '
         'JsonDatabase, rewrite / remove a JSON file after load or after pickling. Oracle: '
